@@ -99,7 +99,67 @@ static void run_schema(const std::vector<std::string>& t, std::string& out, int 
   }
 }
 
+// docbuf <op>…: the text buffers of two documents (str_, the schema_str_ chain) under the tracking allocator. The texts are scalars,
+// strings and malformed scalars, whose values own no node storage, so the ledger's live-block count after every operation is
+// exactly the number of text buffers the two documents hold. Ops: pa:<hex> / pb:<hex> Parse, sa:<hex> / sb:<hex> ParseSchema,
+// w = a.Swap(b), mab / mba = move assignment (the moved-from object is then replaced by a fresh document), da / db = destructor
+// (then a fresh document). Answer: L<live> per op, then the ledger's problems and the live count after both are destroyed.
+static void run_docbuf(const std::vector<std::string>& t, std::string& out) {
+  using Doc = vparse::TrackDoc;
+  vh::ledger().reset();
+  std::unique_ptr<Doc> d[2];
+  d[0].reset(new Doc());
+  d[1].reset(new Doc());
+  for (size_t i = 1; i < t.size(); i++) {
+    const std::string& op = t[i];
+    if (op == "w") {
+      d[0]->Swap(*d[1]);
+    } else if (op == "mab" || op == "mba") {
+      int dst = op == "mab" ? 0 : 1;
+      *d[dst] = std::move(*d[1 - dst]);
+      d[1 - dst].reset(new Doc());
+    } else if (op == "da" || op == "db") {
+      int k = op == "da" ? 0 : 1;
+      d[k].reset();
+      d[k].reset(new Doc());
+    } else if (op.size() >= 3 && (op[0] == 'p' || op[0] == 's') && (op[1] == 'a' || op[1] == 'b') && op[2] == ':') {
+      std::string text;
+      if (!unhex(op.substr(3).empty() ? "-" : op.substr(3), text)) {
+        out = "bad-op";
+        return;
+      }
+      char* in = (char*)std::malloc(text.size() ? text.size() : 1);
+      memcpy(in, text.data(), text.size());
+      Doc& doc = *d[op[1] == 'a' ? 0 : 1];
+      if (op[0] == 'p')
+        doc.Parse(in, text.size());
+      else
+        doc.ParseSchema(in, text.size());
+      std::free(in);
+      // read the value back: a string root points into one of the buffers
+      if (doc.IsString()) {
+        volatile size_t sum = 0;
+        for (char c : doc.GetStringView()) sum += (unsigned char)c;
+      }
+    } else {
+      out = "bad-op";
+      return;
+    }
+    if (i > 1) out += " ";
+    out += "L" + std::to_string(vh::ledger().live_count);
+  }
+  d[0].reset();
+  d[1].reset();
+  vh::ledger().check_quarantine();
+  out += " faults=" + std::to_string(vh::ledger().problems.size()) + " final=" + std::to_string(vh::ledger().live_count);
+  if (!vh::ledger().problems.empty()) out += " problems=" + vh::ledger().report(false);
+}
+
 static void cmd(const std::vector<std::string>& t, std::string& out) {
+  if (t[0] == "docbuf" && t.size() >= 2) {
+    run_docbuf(t, out);
+    return;
+  }
   if ((t[0] == "schema" || t[0] == "schema-copy" || t[0] == "schema-swap" || t[0] == "schema-reparse" || t[0].compare(0, 11, "schema-prep") == 0) &&
       t.size() >= 4) {
     int copy = t[0] == "schema-copy" ? 1 : t[0] == "schema-swap" ? 2 : t[0] == "schema-reparse" ? 3 : 0;
